@@ -22,6 +22,8 @@ for STAGE, RP, IP, prop in JOBS:
         applies = subprocess.run(["git", "-C", "/repo", "apply", "--check", os.path.join(d, "patch.diff")], capture_output=True).returncode == 0
         tag = f"{RP}{prop}{m}"
         res = os.path.join(STAGE, "res", tag)
+        if os.path.isdir(os.path.join("/tmp/regress/res", tag)):  # the last run of every seeded change against the final checks
+            res = os.path.join("/tmp/regress/res", tag)
         caught = {}
         if os.path.isdir(res):
             for f in sorted(os.listdir(res)):
@@ -56,3 +58,15 @@ for STAGE, RP, IP, prop in JOBS:
                     how_run="tools/muttest.sh <dir> <tag> quick <checks>  (fresh scratch worktree of /repo HEAD + patch, checks run against it, worktree removed)")
         json.dump(meta, open(os.path.join(dst, "meta.json"), "w"), indent=1)
         print(f"{tag}: kept (applies_to_head={applies}) detected_by={list(caught)}")
+# index of what is kept
+rows = []
+for d in sorted(os.listdir(OUT)):
+    mp = os.path.join(OUT, d, "meta.json")
+    if os.path.exists(mp):
+        m = json.load(open(mp))
+        rows.append(f"| {m['id']} | {m['property']} | {', '.join(sorted(m['detected_by'])) or 'not reported (see DESIGN.md 9.5)'} |")
+open(os.path.join(OUT, "README.md"), "w").write(
+    "# Seeded changes kept after confirmation\n\nEach directory: `patch.diff` (applies to /repo HEAD with `git apply`), `demo.py` (exit 0 on the clean tree, non-zero with the patch), "
+    "`notes.md` (the author's description), `meta.json` (what it needs to manifest, how it was confirmed, which checks report it).\n"
+    "Run the checks against one with `tools/muttest.sh seeded/<id> <tag> quick <IDs>` (scratch worktree; /repo is not touched).\n\n"
+    "| id | property | reported by |\n|---|---|---|\n" + "\n".join(rows) + "\n")
